@@ -228,6 +228,8 @@ func propC14(c *Ctx) {
 		ruleThrowIdentity(c, rti)
 		rce := c.Rule("callback-err", "a library callback that records the error of the script function keeps the first error (no further call once one is recorded) in a variable local to the call", 1)
 		ruleCallbackErr(c, rce)
+		rfc := c.Rule("frame-clear-init", "every field of the first frame that the end of a run clears is established again by the start of a run (a child VM is good for any number of invocations)", 2)
+		ruleFrameClearInit(c, rfc)
 		rav := c.Rule("arity-with-variadic", "every function that compares an argument count with a compiled function's NumParams also looks at Variadic (NumParams counts the rest parameter)", 3)
 		ruleArityWithVariadic(c, rav)
 		rir := c.Rule("invoke-result-identity", "Invoke returns the object the call produced (first result of an (Object, error) call) or Undefined on every path, never something computed from it", 2)
@@ -411,6 +413,10 @@ func propC06(c *Ctx) {
 	if vf == nil {
 		return
 	}
+	defer func() {
+		rtc := c.Rule("throw-then-continue", "after the unwinding routine reports an error handled, a dispatch arm goes straight back to the head of the dispatch loop (the handler's stack pointer and locals are not touched by the rest of the arm)", 5)
+		ruleThrowThenContinue(c, rtc, vf)
+	}()
 	// callers of loop
 	for _, ci := range l.StaticCallers(vf.loop) {
 		fn := ci.Parent()
